@@ -122,6 +122,10 @@ type Server struct {
 	DropReply func(r *Req) bool          // after execution: true = close the connection instead of replying
 	// ReplyDelay is called WITHOUT the lock before a reply is written (back-pressure injection).
 	ReplyDelay func(cmd string)
+	// ArrivalDelay is called WITHOUT the lock after a request has been read from its connection and
+	// before it is executed: the request "arrives later" (a slow network path of that connection);
+	// requests on other connections are executed meanwhile.
+	ArrivalDelay func(args [][]byte)
 
 	onApplied func(a *App)
 
@@ -392,6 +396,9 @@ func (s *Server) serve(c *conn) {
 		args, err := readRequest(rd)
 		if err != nil {
 			return
+		}
+		if s.ArrivalDelay != nil {
+			s.ArrivalDelay(args)
 		}
 		s.mu.Lock()
 		if s.dead || s.closed {
